@@ -1,2 +1,2 @@
-CONSTANTS PortNames = {"80", "81"}
+CONSTANTS PortNames = {"80", "81", "82"}
 SPECIFICATION TraceSpec
